@@ -236,7 +236,7 @@ mut("C06", "nonbool-condition-dropped", ("internal/eval/partial.go", '''			err :
 			p2.Conditions = append(p2.Conditions, ast.ConditionType{Condition: c.Condition, Body: extError(err)})
 			return &p2, true''', '''			continue'''))
 mut("C06", "nested-unknown-compared", ("internal/eval/partial.go", '''			if containsVariable(values[0]) || containsVariable(values[1]) {''', '''			if IsVariable(values[0]) || IsVariable(values[1]) {'''))
-mut("C06", "residual-frozen-operands", ("internal/eval/partial.go", "return mkNode(orig), errVariable", "_ = orig\n\t\t\treturn mkNode(nodes), errVariable"))
+# (C06 residual-frozen-operands removed: equivalent since fix 1981774 keeps the original operand for every value with a nested unknown)
 mut("C06", "ignore-in-unless-kept-false", ("internal/eval/partial.go", '''			if types.Effect(p.Effect) == types.Permit {
 				continue
 			}
